@@ -102,9 +102,9 @@ func GetIntervalInMillis(num int, timeUnit sutils.TimeUnit) uint64 {
 	case sutils.TMMillisecond:
 		return uint64(numD)
 	case sutils.TMCentisecond:
-		return uint64(numD * 10 * time.Millisecond)
+		return uint64((numD * 10 * time.Millisecond).Milliseconds())
 	case sutils.TMDecisecond:
-		return uint64(numD * 100 * time.Millisecond)
+		return uint64((numD * 100 * time.Millisecond).Milliseconds())
 	case sutils.TMSecond:
 		return uint64((numD * time.Second).Milliseconds())
 	case sutils.TMMinute:
